@@ -9,6 +9,7 @@ import (
 
 type Mutex struct {
 	held bool
+	reg  bool
 	v    uint64
 }
 
@@ -16,6 +17,10 @@ func (m *Mutex) Lock() {
 	point("Mutex.Lock", func() bool { return !m.held })
 	m.held = true
 	touch(&m.v, 1)
+	if S != nil && !m.reg {
+		m.reg = true
+		S.resets = append(S.resets, func() { m.held, m.reg = false, false })
+	}
 }
 func (m *Mutex) TryLock() bool {
 	point("Mutex.TryLock", always)
@@ -41,9 +46,18 @@ type RWMutex struct {
 	w        bool
 	r        int
 	wwaiting int
+	reg      bool
+}
+
+func (m *RWMutex) regReset() {
+	if S != nil && !m.reg {
+		m.reg = true
+		S.resets = append(S.resets, func() { m.w, m.r, m.wwaiting, m.reg = false, 0, 0, false })
+	}
 }
 
 func (m *RWMutex) Lock() {
+	m.regReset()
 	point("RWMutex.Lock", always) // arrival
 	if !m.w && m.r == 0 {
 		m.w = true
@@ -68,6 +82,7 @@ func (m *RWMutex) RLock() {
 	point("RWMutex.RLock", func() bool { return !m.w && m.wwaiting == 0 })
 	m.r++
 	touch(&m.v, 5)
+	m.regReset()
 }
 func (m *RWMutex) RUnlock() {
 	if m.r <= 0 && S != nil && !S.killed {
@@ -95,6 +110,13 @@ func (o *Once) Do(f func()) {
 		return
 	}
 	o.state = 1
+	if S != nil {
+		S.resets = append(S.resets, func() {
+			if o.state == 1 {
+				o.state = 0
+			}
+		})
+	}
 	defer func() { o.state = 2; touch(&o.v, 7) }()
 	f()
 }
